@@ -253,6 +253,15 @@ def ops_for(pid):
         return {'name': 'x.rolling(%d).%s' % (w, name), 'kind': 'concat', 'index': 'int',
                 'build': lambda s, p: getattr(s.x.rolling(w), name)(), 'oracle': lambda d, p: getattr(d.x.rolling(w), name)()}
 
+    def roll_t(name, secs):
+        return {'name': "x.rolling('%ds').%s" % (secs, name), 'kind': 'concat', 'index': 'time',
+                'build': lambda s, p: getattr(s.x.rolling('%ds' % secs), name)(),
+                'oracle': lambda d, p: getattr(d.x.rolling('%ds' % secs), name)()}
+
+    def cumf(name):
+        return {'name': 'frame[x,y].%s' % name, 'kind': 'concat', 'index': 'int', 'col': ['x', 'y'],
+                'build': lambda s, p: getattr(s[['x', 'y']], name)(), 'oracle': lambda d, p: getattr(d[['x', 'y']], name)()}
+
     def cum(name):
         return {'name': 'x.%s' % name, 'kind': 'concat', 'index': 'int',
                 'build': lambda s, p: getattr(s.x, name)(), 'oracle': lambda d, p: getattr(d.x, name)()}
@@ -288,6 +297,11 @@ def ops_for(pid):
                 resume("window(n=2).groupby('k').x.sum", lambda s, st: s.window(n=2, with_state=True, start=st).groupby('k').x.sum()),
                 resume("window(n=3).groupby('k').x.mean", lambda s, st: s.window(n=3, with_state=True, start=st).groupby('k').x.mean()),
                 resume("groupby('k').x.mean", lambda s, st: s.groupby('k').x.mean(with_state=True, start=st)),
+                resume('window(n=2)[x,y].mean', lambda s, st: s.window(n=2, with_state=True, start=st)[['x', 'y']].mean()),
+                resume('expanding()[x,y].mean', lambda s, st: s.expanding(with_state=True, start=st)[['x', 'y']].mean()),
+                resume('ewm(com=1).x.mean', lambda s, st: s.ewm(com=1, with_state=True, start=st).x.mean()),
+                resume('ewm(com=0.5)[x,y].mean', lambda s, st: s.ewm(com=0.5, with_state=True, start=st)[['x', 'y']].mean()),
+                resume('x.rolling(2).sum', lambda s, st: s.x.rolling(2, with_state=True, start=st if st is not None else ()).sum()),
                 resume_total('x.sum', lambda s, st: s.x.sum(start=st)),
                 resume_total('x.count', lambda s, st: s.x.count(start=st)),
                 resume_total("groupby('k').x.sum", lambda s, st: s.groupby('k').x.sum(start=st)),
@@ -301,7 +315,8 @@ def ops_for(pid):
                 wint('sum', 2), wint('mean', 1), wingb('sum', 2), wingb('mean', 3), wingb('count', 2), wingb('size', 3),
                 wind('var', 3, 0), wind('std', 3, 0), wingbd('var', 3, 0), wingbd('std', 2, 0), vc(1), vc(3)]
     if pid == 'C11':
-        return [roll('sum', 2), roll('mean', 3), roll('max', 1), roll('count', 3), cum('cumsum'), cum('cumprod'), cum('cummax'),
+        return [roll('sum', 2), roll('mean', 3), roll('max', 1), roll('count', 3), roll_t('sum', 2), roll_t('mean', 3),
+                cumf('cumsum'), cumf('cummax'), cum('cumsum'), cum('cumprod'), cum('cummax'),
                 cum('cummin'), expanding('sum'), expanding('mean'), ewm(1), ewm(0.5)]
     return []
 
